@@ -2299,7 +2299,7 @@ class Interpreter(InterpreterBase, HoldableObject):
         subdir = tg.get_builddir()
         for t in tg.get_outputs():
             self.validate_forbidden_targets(t, not subdir)
-            for i in inputs:
+            for i in [*inputs, *command, *tg.depend_files]:
                 # e.g. the result of configure_file() rewritten in place
                 if isinstance(i, mesonlib.File) and i.is_built and i.relative_name() == os.path.join(subdir, t):
                     raise InvalidArguments(f'Output "{t}" of custom_target "{tg.name}" is also one of its inputs.')
